@@ -179,7 +179,10 @@ TStrs ==
                   /\ Judge("C18", toolong = {}, I("C18", "too_many_segments_not_refused", toolong))
           [] E.what = "eisa" ->
                LET ok == Sel(E.strs, LAMBDA i : EisaValid(E.strs[i]))
-                   badenc == {i \in ok : E.panics[i] \/ ~EisaOk(E.strs[i], E.outs[i])}
+                   \* product digits written in lower case (a-f) denote the same identifier, but whether the constructor
+                   \* takes them is not the property's business: refused, or encoded as the same identifier
+                   canon == {i \in ok : \A j \in 4..7 : E.strs[i][j] < 97}
+                   badenc == {i \in ok : IF E.panics[i] THEN i \in canon ELSE ~EisaOk(E.strs[i], E.outs[i])}
                    notref == Sel(E.strs, LAMBDA i : EisaMalformed(E.strs[i]) /\ ~E.panics[i])
                IN /\ Judge("C16", badenc = {}, I("C16", "eisa_id", badenc))
                   /\ Judge("C16", notref = {}, I("C16", "malformed_eisa_not_refused", notref))
